@@ -347,6 +347,21 @@ def objective(sc):
     return lambda x: sum(wi * (xi - oi) ** 2 for xi, oi, wi in zip(x, opt, w))
 
 
+def unit_weights(npts):
+    """the user's own constraint of a measure scenario: weights non-negative with unit sum per measure, positions untouched"""
+    wi, _ = layout(npts)
+
+    def constrain(x):
+        x = [float(v) for v in x]
+        for grp in wi:
+            w = [abs(x[i]) for i in grp]
+            t = sum(w)
+            for i, v in zip(grp, w):
+                x[i] = v / t if t > 0 else 1.0 / len(grp)
+        return x
+    return constrain
+
+
 class Timeout(Exception):
     pass
 
@@ -366,6 +381,10 @@ def run_solve(sc):
     else:
         s.SetInitialPoints(sc['x0'])
     s.SetEvaluationLimits(generations=sc['maxgen'])
+    if sc.get('npts'):                   # parameters are a product measure: per measure its weights then its positions
+        from mystic.monitors import Monitor
+        s.SetGenerationMonitor(Monitor(npts=tuple(sc['npts'])))
+        s.SetConstraints(unit_weights(sc['npts']))
     what, tgt = sc['term']
     tgt = {'list0': [1.0, 0.0, 2.0], 'list1': [1.0, 1.0, 1.0]}.get(tgt, tgt) if isinstance(tgt, str) else tgt
     conds = []
@@ -373,9 +392,13 @@ def run_solve(sc):
         conds.append(mt.CollapseAt(tgt, sc['tol'], sc['g']))
     if what in ('as', 'both'):
         conds.append(mt.CollapseAs(False, sc['tol'], sc['g']))
+    if what == 'position':
+        conds.append(mt.CollapsePosition(sc['tol'], sc['g']))
     if sc.get('cog'):                    # tied optima have a non-zero cost: a flat-cost stop lets the run end by itself
         conds.append(mt.ChangeOverGeneration(1e-12, sc['cog']))
-    term = mt.Or(*(conds + [mt.VTR(1e-14)]))
+    else:
+        conds.append(mt.VTR(1e-14))
+    term = mt.Or(*conds)
     rec = Recorder(objective(sc))
     log = []
     orig = s.Collapse
@@ -444,7 +467,9 @@ def check_solve(res, sc):
     err, log, calls, final, endstate = run_solve(sc)
     applied = [e for e in log if e[3]]
     lt = '#list-target' if isinstance(sc['term'][1], str) else ''
-    fixed, tied, seen = [], [], {'CollapseAt': set(), 'CollapseAs': set()}
+    fixed, tied, seen = [], [], {'CollapseAt': set(), 'CollapseAs': set(), 'CollapsePosition': set()}
+    ppos = layout(sc['npts'])[1] if sc.get('npts') else None
+    pnorm = lambda m: {(int(q), tuple(sorted(int(v) for v in p))) for q, ps in (m or {}).items() for p in ps}
     src, shapes = {}, set()              # (evaluation count, indices) -> the conditions that reported that relation
     pending = []
     for n0, best, st0, coll, st1 in applied:
@@ -452,13 +477,15 @@ def check_solve(res, sc):
             kind = k.split(' ')[0]
             if kind not in seen:
                 continue
-            items = {int(i) for i in val} if kind == 'CollapseAt' else {tuple(sorted(int(v) for v in p)) for p in val}
+            items = {int(i) for i in val} if kind == 'CollapseAt' else pnorm(val) if kind == 'CollapsePosition' else \
+                {tuple(sorted(int(v) for v in p)) for p in val}
             if items & seen[kind]:
                 pending.append((key + 'reported-once', '%s reported %r again (already applied %r)' % (kind, sorted(items & seen[kind]), sorted(seen[kind]))))
             seen[kind] |= items
             old = st0[k].get('mask') or set()
             _, new = _mask_of(st1, kind)
-            norm = (lambda m: {int(i) for i in m}) if kind == 'CollapseAt' else (lambda m: {tuple(sorted(int(v) for v in p)) for p in m})
+            norm = (lambda m: {int(i) for i in m}) if kind == 'CollapseAt' else pnorm if kind == 'CollapsePosition' else \
+                (lambda m: {tuple(sorted(int(v) for v in p)) for p in m})
             if norm(new.get('mask') or set()) != norm(old) | items:
                 pending.append((key + 'mask-grows', '%s mask %r -> %r after applying %r' % (kind, old, new.get('mask'), sorted(items))))
             if kind == 'CollapseAt':
@@ -467,10 +494,15 @@ def check_solve(res, sc):
                 for i in items:
                     src.setdefault((n0, (i,)), set()).add(k)
             else:
+                if kind == 'CollapsePosition':           # (measure, (a, b)) -> the two position parameters
+                    for q in {q for q, _ in items}:
+                        shapes |= event_shape({p for r, p in items if r == q})
+                    items = {(ppos[q][a], ppos[q][b]) for q, (a, b) in items}
+                else:
+                    shapes |= event_shape(items)
                 tied += [(n0, i, j) for i, j in sorted(items)]
                 for p in items:
                     src.setdefault((n0, p), set()).add(k)
-                shapes |= event_shape(items)
     rel = [(m0, (i,)) for m0, i, _ in fixed] + [(m0, (i, j)) for m0, i, j in tied]
     joins = set()
 
@@ -501,7 +533,7 @@ def check_solve(res, sc):
         return '#stale-best' if old else later(n0, idx)
     subs = {later(n0, ix) for n0, ix in rel}
     if sc['obj'] == 'quad':
-        what = '%d|%s|%s|%s' % (len(sc['x0']), sc['start'], '+'.join(sorted(shapes)), '+'.join(sorted(subs)))
+        what = '%s|%s|%s|%s' % (sc.get('npts') or len(sc['x0']), sc['start'], '+'.join(sorted(shapes)), '+'.join(sorted(subs)))
     else:
         what = '%s|%s' % (sc['obj'], sc['term'])
     res.case('%s%s|%s|g%d|%d' % (key, sc['solver'], what, sc['g'], min(len(applied), 2)), nontrivial=bool(applied), sample=sc)
@@ -543,35 +575,49 @@ def gen_solves(rng, n):
     return out
 
 
+def tie_values(rng, nd, tol):
+    """nd values in clusters 0.8*tol apart, members in arbitrary index order: offsets k in {0,1,2} steps -> (0,1) and (1,2)
+    are within the tolerance, (0,2) is not (a non-transitive tie whenever the middle value has the highest index)"""
+    bases, opt = rng.sample(range(-4, 5), nd), []
+    while len(opt) < nd:
+        base = bases[len(opt)] * 0.5
+        size = min(rng.choice([1, 2, 3, 3, 4]), nd - len(opt))
+        mode = rng.choice(['equal', 'steps', 'steps', 'between'])
+        ks = {'equal': [0] * size, 'steps': [rng.randrange(3) for _ in range(size)], 'between': ([0, 2] + [1] * size)[:size]}[mode]
+        opt += [base + 0.8 * tol * q for q in ks]
+    order = list(range(nd))
+    if rng.random() < 0.7:
+        rng.shuffle(order)
+    return [opt[i] for i in order]
+
+
 def gen_ties(rng, n):
-    """separable quadratics whose optimum holds clusters of values 0.8*tol apart, members in arbitrary index order:
-    offsets k in {0,1,2} steps -> (0,1) and (1,2) are within the tolerance, (0,2) is not (non-transitive when the middle
-    value has the highest index); unequal curvatures make coordinates converge, and so collapse, at different moments"""
+    """separable quadratics with a tied optimum (tie_values); unequal curvatures make coordinates converge, and so
+    collapse, at different moments.  Every fourth scenario is a product measure (weights then positions per measure,
+    weights kept non-negative with unit sum by the user's constraint) watched by CollapsePosition"""
     out = []
     for k in range(n):
-        s = ('NM', 'Powell', 'NM', 'DE1', 'NM', 'Powell', 'DE2', 'NM')[k % 8]
+        s = ('NM', 'Powell', 'NM', 'DE1', 'NM', 'Powell', 'DE2', 'NM')[(k // 4) % 8]
         fast = s == 'Powell'
-        nd = rng.choice([4, 5, 6])
         tol = rng.choice([1e-2, 5e-2] if fast else [1e-3, 1e-2, 5e-2])
-        bases = rng.sample(range(-4, 5), nd)
-        opt = []
-        while len(opt) < nd:
-            base = bases[len(opt)] * 0.5
-            size = min(rng.choice([1, 2, 3, 3, 4]), nd - len(opt))
-            mode = rng.choice(['equal', 'steps', 'steps', 'between'])
-            ks = {'equal': [0] * size, 'steps': [rng.randrange(3) for _ in range(size)],
-                  'between': ([0, 2] + [1] * size)[:size]}[mode]
-            opt += [base + 0.8 * tol * q for q in ks]
-        order = list(range(nd))
-        if rng.random() < 0.7:
-            rng.shuffle(order)
-        opt = [opt[i] for i in order]
-        start = rng.choice(['near', 'near', 'far'])
-        r = 0.3 * tol if start == 'near' else 0.5
-        out.append({'kind': 'solve', 'solver': s, 'obj': 'quad', 'term': ['as', False], 'seed': rng.randrange(10 ** 6), 'tol': tol,
-                    'g': rng.choice([1, 2] if fast else [5, 10, 20]), 'opt': opt, 'w': [rng.choice([1.0, 1.0, 4.0, 0.25]) for _ in opt],
-                    'start': start, 'x0': [v + rng.uniform(-r, r) for v in opt], 'box': [[v - r for v in opt], [v + r for v in opt]],
-                    'cog': 60, 'maxgen': 400, 'guard': 30})
+        sc = {'kind': 'solve', 'solver': s, 'obj': 'quad', 'term': ['as', False], 'seed': rng.randrange(10 ** 6), 'tol': tol,
+              'g': rng.choice([1, 2] if fast else [5, 10, 20]), 'cog': 60, 'maxgen': 400, 'guard': 30}
+        if k % 4 == 3:
+            sc['npts'] = rng.choice([[3], [4], [5], [3, 3]])
+            sc['term'] = ['position', None]
+            opt = []
+            for m in sc['npts']:
+                opt += [1.0 / m] * m + tie_values(rng, m, tol)
+            free = [i for grp in layout(sc['npts'])[1] for i in grp]
+        else:
+            opt = tie_values(rng, rng.choice([4, 5, 6]), tol)
+            free = range(len(opt))
+        sc['start'] = rng.choice(['near', 'near', 'far'])
+        r = 0.3 * tol if sc['start'] == 'near' else 0.5
+        box = [r if i in free else 0.1 / len(opt) for i in range(len(opt))]
+        sc.update(opt=opt, w=[rng.choice([1.0, 1.0, 4.0, 0.25]) for _ in opt], x0=[v + rng.uniform(-b, b) for v, b in zip(opt, box)],
+                  box=[[v - b for v, b in zip(opt, box)], [v + b for v, b in zip(opt, box)]])
+        out.append(sc)
     return out
 
 
